@@ -89,7 +89,7 @@ def gen(rng, n, tier):
         elif r < 0.70:
             kind = 'valid'
         elif r < 0.82:
-            kind = 'fill-conflict'
+            kind = 'fill-differs'
         elif r < 0.91:
             kind = 'unlim-unused'
         else:
@@ -125,7 +125,7 @@ def gen(rng, n, tier):
                 pm = rng.choice([0.0, 0.3, 0.6])
                 v['cells'] = [None if rng.random() < pm else c for c in cells]
                 mode = rng.choice(['ma', 'ma', 'mv', 'fv', 'both-eq'])
-                if kind == 'fill-conflict' and rank > 0:
+                if kind == 'fill-differs' and rank > 0:
                     mode = 'both-diff'
                     if not any(c is None for c in v['cells']):
                         v['cells'][rng.randrange(size)] = None
@@ -152,6 +152,7 @@ def gen(rng, n, tier):
             if kind == 'collide' and fills and dt != 'c' and size > 0:
                 unm = [i for i, c in enumerate(v['cells']) if c is not None]
                 if unm:
+                    kind = 'ood-equals-declared-fill'
                     v['cells'][rng.choice(unm)] = v['mv'] if v['mv'] is not None else (v['fv'] if v['fv'] is not None else fills[0])
             # attributes (missing_value / fill_value are placed among them in random order)
             keys = rng.sample(AKEYS, rng.randint(0, 3))
@@ -232,7 +233,7 @@ def impl(case):
     from PseudoNetCDF import PseudoNetCDFFile, pncopen
     from PseudoNetCDF.sci_var import PseudoNetCDFMaskedVariable
     import gc
-    gc.collect()     # a closed netcdf object collected later would close a recycled ncid (defect tracked under C05)
+    gc.collect()
     work = tempfile.mkdtemp(dir=os.path.join(C.VERIF, '.work'))
     try:
         f = PseudoNetCDFFile()
@@ -345,6 +346,12 @@ def py_check(case, obs):
         return dict(s_ok=False, f_ok=False, why='harness impl raised %s %s' % (obs.get('raises'), obs.get('msg')))
     if 'err' in obs:
         return dict(s_ok=False, why=obs['err'])
+    for v in case['vars']:
+        dt = v['dt']
+        decl = v['mv'] if v['mv'] is not None else (v['fv'] if v['fv'] is not None else (v['mafill'] if v['masked'] else v['hid']))
+        declk = [_key(x, dt) for x in (decl, v['mv']) if x is not None]
+        if any(c is not None and _key(c, dt) in declk for c in v['cells']):
+            return dict(s_ok=True, why='an unmasked cell equals the declared fill value: outside the domain')
     why = []
     if obs['data_model'] != case['flavour']:
         why.append('flavour %s -> %s' % (case['flavour'], obs['data_model']))
@@ -394,12 +401,13 @@ def shrink(case):
                 yield dict(case, vars=vs[:j] + [dict(v, attrs=v['attrs'][:q] + v['attrs'][q + 1:])] + vs[j + 1:])
 
 
-LEVEL_TEXT = ('Theorems (Props/C07.v, all closed under the global context) about the decision logic of Pseudo2NetCDF.convert composed with an '
-              'ASSUMED netCDF store/load behaviour (part of the model, not verified): C07_save_open_partial (whole file, any number of dimensions, '
-              'attributes, variables, cells: on the boolean domain save+open is the identity on dimensions incl. unlimited flag, attributes, dtypes, '
-              'dimension tuples, cells and masks), C07_cells_partial, C07_fill_precedence, C07_attrs_kept; refuted for all shapes: '
-              'C07_fill_conflict_refuted (missing_value <> fill_value loses every mask), witnesses C07_masks_refuted, C07_unlimited_unused_refuted, '
-              'C07_value_equals_fill_refuted = known findings. Tie H: real save + pncopen over four flavours x compression, field by field, bit patterns.')
+LEVEL_TEXT = ('Theorems (Props/C07.v, all closed under the global context) about the decision logic of the REPAIRED Pseudo2NetCDF.convert '
+              '(fix C07-fill-conflict) composed with an ASSUMED netCDF store/load behaviour (part of the model, not verified): C07_save_open_partial '
+              '(whole file, any number of dimensions, attributes, variables, cells: on the boolean domain save+open is the identity on dimensions incl. '
+              'unlimited flag, attributes, dtypes, dimension tuples, cells and masks), C07_cells_partial, C07_masked_any_fill (full: masked cells are '
+              'written with the declared _FillValue whatever missing_value / fill_value are), C07_fill_precedence, C07_attrs_kept; refuted: '
+              'C07_unlimited_unused_refuted, C07_default_fill_refuted = known findings; an unmasked cell equal to the DECLARED fill value is outside '
+              'the domain (in_quant). Tie H: real save + pncopen over four flavours x compression, field by field, bit patterns.')
 LEVEL_NOTE = ('Partial by nature: netCDF-C / HDF5 / netCDF4-python are an assumed oracle (identity on representable images, _FillValue / missing_value masking, '
               'written length of unlimited dimensions); Coq kernel + vm_compute; the harness.')
 TECHNIQUE = 'Coq proof (induction over dimensions / attributes / variables / cells) + vm_compute refutation witnesses + differential correspondence against netCDF4'
